@@ -35,6 +35,14 @@ func (c *chunkSource) Read(p []byte) (int, error) {
 func (c *chunkSource) Seek(o int64, w int) (int64, error) { return c.r.Seek(o, w) }
 func (c *chunkSource) Close() error                       { return nil }
 
+// writerToSource is a caller-supplied source that also implements io.WriterTo (as *bytes.Reader,
+// *strings.Reader and *bytes.Buffer do): io.Copy then hands the whole content over in one Write.
+type writerToSource struct {
+	*bytes.Reader
+}
+
+func (writerToSource) Close() error { return nil }
+
 func contentClasses(r *rand.Rand, rs int) []*Data {
 	rec := rs * 512
 	sizes := []int{0, 1, 511, 512, 513, rec - 1, rec, rec + 1, 3*rec + 7}
@@ -75,6 +83,7 @@ func init() {
 		Gen: func(r *rand.Rand, tier string, relax Relax) *Case {
 			c := &Case{Cfg: GenConfig(r, 0.03), P: map[string]int64{}, S: map[string]string{}}
 			c.P["chunk"] = int64([]int{0, 1, 7, 100, 511, 4096}[r.IntN(6)])
+			c.P["writerto"] = int64(r.IntN(4) / 3) // the batched archive is fed by sources that implement io.WriterTo
 			c.P["sleep"] = int64([]int{0, 1, 3600, 86400 * 400, 86400 * 365 * 20}[r.IntN(5)])
 			if r.Float64() < 0.5 {
 				c.P["rfault"] = int64(1 + r.IntN(1000))
@@ -273,6 +282,9 @@ func evalC03(t *testing.T, c *Case, st *Stats, relax Relax) *Violation {
 			hdr := &tar.Header{Typeflag: tar.TypeReg, Name: name, Size: int64(len(b)), Mode: 0o600, ModTime: time.Now()}
 			return config.FileConfig{
 				GetFile: func() (io.ReadSeekCloser, error) {
+					if c.Param("writerto", 0) == 1 {
+						return writerToSource{bytes.NewReader(b)}, nil
+					}
 					return &chunkSource{r: bytes.NewReader(b), chunk: chunk, reads: &reads}, nil
 				},
 				Info: hdr.FileInfo(), Path: name,
